@@ -10,14 +10,20 @@ lean = os.path.join(root, "lean")
 allowed = {"propext", "Classical.choice", "Quot.sound"}
 src = os.path.join(lean, "Rdpgw", "Props", prop + ".lean")
 text = open(src).read()
+# companion files whose theorems belong to this property as well (imported by the property's file)
+EXTRA = {"C01": ["C01Facts"], "C16": ["C01Facts"]}
 # strip comments (block comments may nest one level; good enough for our own files)
 def strip_comments(t):
     t = re.sub(r"/-.*?-/", "", t, flags=re.S)
     t = re.sub(r"--[^\n]*", "", t)
     return t
-names = re.findall(r"^\s*theorem\s+([A-Za-z_][A-Za-z0-9_'.]*)", strip_comments(text), flags=re.M)
-ns = re.search(r"^namespace\s+(\S+)", text, flags=re.M)
-ns = ns.group(1) if ns else ""
+def theorems_of(t):
+    n = re.search(r"^namespace\s+(\S+)", t, flags=re.M)
+    n = n.group(1) if n else ""
+    return [(n + "." if n else "") + x for x in re.findall(r"^\s*theorem\s+([A-Za-z_][A-Za-z0-9_'.]*)", strip_comments(t), flags=re.M)]
+names = theorems_of(text)
+for extra in EXTRA.get(prop, []):
+    names += theorems_of(open(os.path.join(lean, "Rdpgw", "Props", extra + ".lean")).read())
 res = {"obligations": len(names), "discharged": 0, "theorems": {}, "failed": [],
        "build_ok": build_ok == "true", "checker_cmd": "", "build_log": "", "extract_notes": [], "leanchecker": ""}
 try:
@@ -32,14 +38,14 @@ else:
     with open(audit_src, "w") as f:
         f.write("import Rdpgw.Props.%s\n" % prop)
         for n in names:
-            f.write("#print axioms %s.%s\n" % (ns, n))
+            f.write("#print axioms %s\n" % n)
     cmd = ["lake", "env", "lean", audit_src]
     res["checker_cmd"] = "cd lean && lake build Rdpgw.Props.%s && lake env lean %s  (#print axioms of every property theorem)" % (prop, os.path.relpath(audit_src, lean))
     p = subprocess.run(cmd, cwd=lean, capture_output=True, text=True)
     outp = p.stdout + p.stderr
     flat = re.sub(r"\s+", " ", outp)
     for n in names:
-        full = "%s.%s" % (ns, n)
+        full = n
         m = re.search(r"'%s' depends on axioms: \[([^\]]*)\]" % re.escape(full), flat)
         if m:
             axs = [a.strip() for a in m.group(1).split(",") if a.strip()]
